@@ -121,8 +121,9 @@ def job_random(job):
 
 def job_history(job):
     """one given call sequence on one graph, observed after every call"""
-    seed, directed, removal, calls, lab = job
-    return drivers.make_trace(directed, removal, calls, labeling=lab, rng=random.Random(seed))
+    seed, directed, removal, calls, lab = job[:5]
+    every = job[5] if len(job) > 5 else True
+    return drivers.make_trace(directed, removal, calls, labeling=lab, rng=random.Random(seed), observe_every=every)
 
 
 def apalache_merge_lemma(chk):
@@ -271,7 +272,7 @@ def run(prop, tier, seed):
     if prop in ("C08", "C01", "C04", "C05"):
         # an object that is emptied and used again at earlier instants: nothing may survive clear() / clear_edges()
         cjobs = []
-        for _ in range(16 if tier == "quick" else 300):
+        for _ in range(30 if tier == "quick" else 400):
             nn, tmax = rng.choice([2, 3, 4]), rng.choice([6, 10])
             first = [c for c in drivers.rand_history(rng, nn, tmax, rng.randint(3, 8)) if c["op"] != "touch"]
             if rng.random() < 0.5:
@@ -281,8 +282,10 @@ def run(prop, tier, seed):
                 k = rng.choice([-3, -2, 2, tmax + 3])
                 again = [dict(c, **{f: c[f] + k for f in ("t", "e") if f in c and c[f] not in (core.NoT, core.NoEnd)}) for c in first
                          if c["op"] not in ("clear", "clear_edges")]
-            calls = first + [{"op": rng.choice(["clear", "clear_edges"])}] + again
-            cjobs.append((rng.randrange(1 << 30), rng.random() < 0.5, rng.choice(modes_wanted), calls, rng.choice(LABS)))
+            calls = first + [{"op": "touch", "kind": "queries"}, {"op": rng.choice(["clear", "clear_edges"])}] + again
+            # half of them observed only at the end (no query between the clear and the refill)
+            cjobs.append((rng.randrange(1 << 30), rng.random() < 0.5, rng.choice(modes_wanted), calls, rng.choice(LABS),
+                          rng.random() < 0.5))
         chk.run_jobs(job_history, cjobs, "reuse", chunk=1500)
     repo_test_traces(chk)
     if prop == "C08":
